@@ -533,6 +533,16 @@ func getNextPos(slice1, slice2 []uint64, slice1Idx, slice2Idx int) (uint64, int,
 		}
 	}
 
+	// A position is never its own sibling. rightSib returns the position itself
+	// for a right sibling so a position that's given twice (or given as a target
+	// and also calculated from the targets below it) must not be paired up with
+	// itself.
+	if sibIdx == 0 && slice1[slice1Idx] == pos {
+		sibIdx = -1
+	} else if sibIdx == 1 && slice2[slice2Idx] == pos {
+		sibIdx = -1
+	}
+
 	return pos, idx, sibIdx
 }
 
